@@ -20,13 +20,10 @@ func runC12(c *an.Ctx) string {
 	r122Variadic(c)
 	r123Lookups(c)
 	r124Validators(c)
+	r06SchemeKeyed(c, "R12.5") // validator and consumers look API keys up under the same scheme-qualified key
 	return explanationC12
 }
 
-// guardedAssertions: reviewed non-comma-ok assertions in dsl (function → reason).
-var guardedAssertions = map[string]string{
-	"dsl.Attribute#parent.Type.(*expr.Union)": "the function returned earlier unless parent.Type is an Object or a Union, and the Object case returned just above",
-}
 
 // reviewedIndexes: constant indexes whose bound follows from reasoning the
 // length dataflow cannot do.
@@ -83,9 +80,12 @@ func r121Assertions(c *an.Ctx) {
 				// inside a type switch clause on the same operand
 				ok2 = inTypeSwitchArm(f.Decl.Body, info, ta)
 			}
-			if _, reviewed := guardedAssertions[construct]; reviewed {
-				ok2 = true
+			witness := ""
+			if !ok2 && found {
+				// path-sensitive proof over the comma-ok tests of the same operand
+				ok2, witness = g.AssertionProved(ta)
 			}
+			_ = witness
 			if ok2 {
 				guarded++
 				c.Okf(rule, construct, "single-value assertion dominated by a successful test of the same value")
